@@ -12,8 +12,7 @@ structure DState where
   sealed : Bool := false
   buf : Buf := Buf.empty
   seenKeys : List Bytes := []
-  stageViews : List View := []          -- innermost first
-  cps : List (List KV × View) := []     -- oldest first
+  markViews : List View := []           -- parallel to `buf.marks` (newest first): the view recorded at each mark
 
 def kvStr (kv : KV) : String := s!"{Bytes.toHex kv.1}:{Bytes.toHex kv.2}"
 def listing (l : List KV) : String := l.foldl (fun acc kv => acc ++ " " ++ kvStr kv) "kvs"
@@ -67,7 +66,21 @@ def DState.pbget (s : DState) (keys : List Bytes) : String :=
   else if !m.all (fun kv => keys.contains kv.1) then "FAIL batchget-extra-key"
   else "ok"
 
-def DState.dropSavepoints (s : DState) : DState := { s with cps := [] }
+/-! the recorded views follow the undo marks -/
+def dropFirstStageV : List Mark → List View → List View
+  | m :: r, v :: vs => if m.isStage then vs else v :: dropFirstStageV r vs
+  | _, _ => []
+
+def cutAtStageV : List Mark → List View → Option (View × List View)
+  | m :: r, v :: vs => if m.isStage then some (v, vs) else cutAtStageV r vs
+  | _, _ => none
+
+def cutAtCpV (i : Nat) : List Mark → List View → Option (View × List View)
+  | m :: r, v :: vs =>
+    if m.isStage then none
+    else if cpCount r = i then some (v, v :: vs)
+    else cutAtCpV i r vs
+  | _, _ => none
 
 def stepSealed (s : DState) (w : List String) : DState × String :=
   match w with
@@ -85,6 +98,10 @@ def stepSealed (s : DState) (w : List String) : DState × String :=
   | ["get", k] =>
     match parseHex k with
     | some k => (s, getStr (s.get k))
+    | none => (s, "bad-op")
+  | "sbget" :: ks =>
+    match parseAll ks with
+    | some keys => (s, listing (batchGet s.snap s.buf.cur keys))
     | none => (s, "bad-op")
   | "bget" :: ks =>
     match parseAll ks with
@@ -105,42 +122,49 @@ def stepSealed (s : DState) (w : List String) : DState × String :=
   | ["staging"] =>
     let v := s.record
     let (b, h) := s.buf.staging
-    ({ s with buf := b, stageViews := v :: s.stageViews, cps := [] }, s!"h {h}")
+    ({ s with buf := b, markViews := v :: s.markViews }, s!"h {h}")
+  | ["cp"] =>
+    let v := s.record
+    let (b, i) := s.buf.checkpoint
+    ({ s with buf := b, markViews := v :: s.markViews }, s!"cp {i}")
   | [op, h] =>
     if op == "release" || op == "cleanup" || op == "prelease" || op == "pcleanup" then
       match h.toNat? with
       | none => (s, "bad-op")
       | some h =>
         if h > 1000 then (s, "bad-op") else
-        let depth := s.buf.stages.length
+        let depth := s.buf.depth
         let prop := op == "prelease" || op == "pcleanup"
         if prop && (h ≠ depth || h = 0) then (s, "bad-op") else
-        let r := if op == "release" || op == "prelease" then s.buf.release h else s.buf.cleanup h
+        let isRelease := op == "release" || op == "prelease"
+        let r := if isRelease then s.buf.release h else s.buf.cleanup h
         match r with
         | none => (s, "refused")
         | some b =>
           let popped := h = depth && h ≠ 0
-          let s' : DState := if popped then { s with buf := b, stageViews := s.stageViews.tail, cps := [] } else { s with buf := b }
+          let views :=
+            if !popped then s.markViews
+            else if isRelease then dropFirstStageV s.buf.marks s.markViews
+            else match cutAtStageV s.buf.marks s.markViews with
+              | some (_, vs) => vs
+              | none => s.markViews
+          let s' : DState := { s with buf := b, markViews := views }
           if op == "prelease" then (s', s'.sameView s.record)
           else if op == "pcleanup" then
-            match s.stageViews with
-            | at_ :: _ => (s', s'.sameView at_)
-            | [] => (s', "bad-op")
+            match cutAtStageV s.buf.marks s.markViews with
+            | some (at_, _) => (s', s'.sameView at_)
+            | none => (s', "bad-op")
           else (s', "ok")
     else if op == "revert" || op == "prevert" then
-      match h.toInt? with
+      match h.toNat? with
       | none => (s, "bad-op")
       | some i =>
-        if i < 0 then (s, "bad-cp") else
-        match s.cps[i.toNat]? with
-        | none => (s, "bad-cp")
-        | some (saved, at_) =>
-          let s' := { s with buf := s.buf.revertTo saved, cps := s.cps.take (i.toNat + 1) }
+        match s.buf.revert i, cutAtCpV i s.buf.marks s.markViews with
+        | some b, some (at_, vs) =>
+          let s' := { s with buf := b, markViews := vs }
           if op == "prevert" then (s', s'.sameView at_) else (s', "ok")
+        | _, _ => (s, "bad-cp")
     else (s, "bad-op")
-  | ["cp"] =>
-    let v := s.record
-    ({ s with cps := s.cps ++ [(s.buf.checkpoint, v)] }, s!"cp {s.cps.length}")
   | ["pview", lo, hi] =>
     match parseBound lo, parseBound hi with
     | some lo, some hi => s.pview lo hi
